@@ -310,37 +310,30 @@ func (ms *Modules) FindModuleByNamespace(ns string) (*Module, error) {
 	if m, ok := ms.byNS[ns]; ok {
 		return m, nil
 	}
-	var found *Module
-	var others []string // names of further modules with this namespace
+	// Several revisions of a module are one module: of those that have the
+	// namespace, the latest counts. Modules of different names that share
+	// it make the namespace ambiguous.
+	latest := map[string]*Module{}
 	for _, m := range ms.Modules {
 		if m.Namespace.Name == ns {
-			// Several revisions of a module are one module; the bare
-			// name denotes the latest of them.
-			if l := ms.Modules[m.Name]; l != nil && l.Namespace.Name == ns {
-				m = l
-			}
-			switch {
-			case m == found:
-			case found != nil:
-				others = append(others, m.Name)
-			default:
-				found = m
+			if l := latest[m.Name]; l == nil || l.FullName() < m.FullName() {
+				latest[m.Name] = m
 			}
 		}
 	}
-	if len(others) > 0 {
+	if len(latest) > 1 {
 		// Name the same two modules whatever order the map was visited in.
-		seen := map[string]bool{found.Name: true}
-		names := []string{found.Name}
-		for _, n := range others {
-			if !seen[n] {
-				seen[n] = true
-				names = append(names, n)
-			}
+		names := make([]string, 0, len(latest))
+		for n := range latest {
+			names = append(names, n)
 		}
 		sort.Strings(names)
 		return nil, fmt.Errorf("namespace %s matches two or more modules (%s, %s)",
 			ns, names[0], names[1])
+	}
+	var found *Module
+	for _, m := range latest {
+		found = m
 	}
 	if found == nil {
 		return nil, fmt.Errorf("%q: no such namespace", ns)
